@@ -323,6 +323,10 @@ def run_case(case):
 
     async def main():
         r = random.Random(case["seed"])
+        if case.get("resend"):
+            for mode in ("forward", "tunnel"):
+                await run_resend(flavor, mode, cnt, v, sigs)
+            return
         for _ in range(case["n"]):
             c = gen_case(r)
             sig = await run_one(flavor, c, cnt, v)
@@ -334,6 +338,85 @@ def run_case(case):
     return {"viol": viol, "counters": cnt, "sigs": sorted(sigs), "sample": sample or None}
 
 
+async def run_resend(flavor, mode, cnt, v, sigs):
+    """The same request passes through the proxy machinery twice: (a) a caller hands one Request object to the pool
+    twice; (b) two queued requests are handed the same idle connection to the proxy, one of them is turned away and
+    queued again (asyncio / trio). Every head the proxy sees is the one meant for it: absolute-form target of the
+    request's own URL (forwarding) or a CONNECT for its origin (tunnel), one Proxy-Authorization, one Host."""
+    import anyio
+    import base64
+    import httpcore
+    from .. import simnet, endpoints
+    from ..world import mk_pool, API, guarded, is_async
+    net = simnet.Net()
+    scheme = "http" if mode == "forward" else "https"
+    port = 80 if mode == "forward" else 443
+    origin = endpoints.Origin(net, "o.test", port, tls=mode != "forward", alpn=["http/1.1"] if mode != "forward" else None, register=False)
+    px = endpoints.HTTPProxy(net, "proxy.test", 3128, origins=[origin])
+    pool = mk_pool(flavor, net, proxy={"url": "http://proxy.test:3128", "auth": (b"user", b"secret"), "headers": [(b"X-Proxy", b"p")]},
+                   max_connections=1)
+    api = API(flavor, pool, net)
+    cred = b"Basic " + base64.b64encode(b"user:secret")
+    outs = {}
+
+    async def send(req):
+        if is_async(flavor):
+            r_ = await pool.handle_async_request(req)
+            await r_.aread()
+            await r_.aclose()
+        else:
+            r_ = pool.handle_request(req)
+            r_.read()
+            r_.close()
+        return r_.status
+
+    async def scen():
+        req = httpcore.Request("GET", f"{scheme}://o.test/twice", headers=[("Host", "o.test"), ("X-Token", "t")])
+        outs["first"] = await guarded(flavor, lambda: send(req))
+        outs["second"] = await guarded(flavor, lambda: send(req))
+        if is_async(flavor):
+            resp, cm = await api.open("GET", f"{scheme}://o.test/held", headers=[("X-Token", "h")])
+
+            async def q(tok):
+                outs[tok] = await guarded(flavor, lambda: api.request("GET", f"{scheme}://o.test/{tok}", headers=[("X-Token", tok)]))
+            async with anyio.create_task_group() as tg:
+                tg.start_soon(q, "q1")
+                tg.start_soon(q, "q2")
+                await anyio.sleep(0.5)
+                await api.read(resp)
+                await api.close(cm)
+        return True
+    run = await guarded(flavor, scen)
+    cnt["resend_runs"] = cnt.get("resend_runs", 0) + 1
+    ctx = {"flavor": flavor, "mode": mode, "outcomes": {k: repr(o) for k, o in outs.items()}}
+    sigs.add(f"resend|{flavor}|{mode}")
+    def status(o):
+        return None if o.kind != "ok" else (o.value if isinstance(o.value, int) else getattr(o.value, "status", None))
+    if run.kind != "ok" or any(status(o) != 200 for o in outs.values()):
+        v(f"resend:request-failed:{mode}", f"{run!r} {ctx['outcomes']}", ctx)
+    heads = px.forwards if mode == "forward" else [c_ for c_ in px.connects]
+    cnt["oracle_forward" if mode == "forward" else "oracle_connect"] += len(heads)
+    for h_ in heads:
+        if mode == "forward":
+            target, hs = h_.target, list(h_.headers)
+            ok_target = target.startswith(b"http://o.test/") and target.count(b"http://") == 1
+        else:
+            target, hs = h_["target"], list(h_["headers"])
+            ok_target = target == b"o.test:443"
+        if not ok_target:
+            v(f"resend:proxy-request-line-wrong:{mode}", f"the proxy was sent {target!r}", ctx)
+        auth = [x for k, x in hs if k.lower() == b"proxy-authorization"]
+        hosts = [x for k, x in hs if k.lower() == b"host"]
+        xp = [x for k, x in hs if k.lower() == b"x-proxy"]
+        if auth != [cred] or xp != [b"p"] or len(hosts) != 1:
+            v(f"resend:proxy-headers-wrong:{mode}", f"headers sent to the proxy for {target!r}: {hs!r}", ctx)
+    for t_ in net.transports:
+        if t_.target != ("proxy.test", 3128):
+            v("resend:proxy-bypassed", f"connect_tcp{t_.target}", ctx)
+    await guarded(flavor, api.close_pool)
+
+
 def plan(tier, seed):
     n_cases, n = (48, 60) if tier == "quick" else (480, 250)
-    return [{"flavor": ["asyncio", "trio", "sync"][i % 3], "seed": seed * 104729 + i, "n": n} for i in range(n_cases)]
+    return [{"flavor": ["asyncio", "trio", "sync"][i % 3], "seed": seed * 104729 + i, "n": n} for i in range(n_cases)] + \
+        [{"flavor": fl, "seed": seed, "n": 0, "resend": True} for fl in ("asyncio", "trio", "sync")]
